@@ -15405,3 +15405,61 @@ func E11SVGDashUnits(c *core.Ctx, r *core.Report) {
 	r.Count("E11.svg-dash-units", n)
 	r.Floor("E11.svg-dash-units", 1)
 }
+
+// E11DashCheckUnits: DrawPath compares dashes with the path's length in one unit.
+func E11DashCheckUnits(c *core.Ctx, r *core.Report) {
+	r.Rule("E11.dash-check-units", "Style.Dashes and Style.DashOffset count in stroke widths; the path's length is in millimetres. Context.DrawPath asks checkDash whether the first dash or space covers the whole path, so the offset and array it hands to checkDash are results of ScaleDash with the style's stroke width (or locals assigned from such a call), not the style's own fields. With the unscaled numbers a stroke of width 0.5 with dashes of 50 (25 mm) on a 30 mm line is recorded as solid")
+	p := c.MustPkg("")
+	info := p.TypesInfo
+	fd := core.MustFuncDecl(p, "Context.DrawPath")
+	scaled := map[types.Object]bool{}
+	ast.Inspect(fd.Body, func(m ast.Node) bool {
+		as, ok := m.(*ast.AssignStmt)
+		if !ok || len(as.Rhs) != 1 {
+			return true
+		}
+		call, ok := core.Unparen(as.Rhs[0]).(*ast.CallExpr)
+		if !ok || len(call.Args) != 3 {
+			return true
+		}
+		if f := core.CalleeOf(info, call); f == nil || f.Name() != "ScaleDash" {
+			return true
+		}
+		if se, ok := core.Unparen(call.Args[0]).(*ast.SelectorExpr); !ok || se.Sel.Name != "StrokeWidth" {
+			return true
+		}
+		for _, l := range as.Lhs {
+			if id, ok := l.(*ast.Ident); ok {
+				scaled[core.ObjOf(info, id)] = true
+			}
+		}
+		return true
+	})
+	n := 0
+	ast.Inspect(fd.Body, func(m ast.Node) bool {
+		call, ok := m.(*ast.CallExpr)
+		if !ok || len(call.Args) != 2 {
+			return true
+		}
+		if f := core.CalleeOf(info, call); f == nil || f.Name() != "checkDash" {
+			return true
+		}
+		n++
+		key := fmt.Sprintf("canvas.Context.DrawPath|checkDash call #%d gets dashes scaled by the stroke width", n)
+		bad := ""
+		for _, a := range call.Args {
+			id, ok := core.Unparen(a).(*ast.Ident)
+			if !ok || !scaled[core.ObjOf(info, id)] {
+				bad = c.Src(a)
+			}
+		}
+		if bad == "" {
+			r.OK("E11.dash-check-units", key, c.Pos(call.Pos()), "")
+		} else {
+			r.Fail("E11.dash-check-units", key, c.Pos(call.Pos()), fmt.Sprintf("`%s` is handed to checkDash as it is in the style, in stroke widths, and compared there with the path's length in millimetres", bad))
+		}
+		return true
+	})
+	r.Count("E11.dash-check-calls", n)
+	r.Floor("E11.dash-check-calls", 1)
+}
